@@ -178,6 +178,8 @@ class Worker:
             "marks": [],
             "fs_fired": [],
             "fs_log": [],
+            "final": None,
+            "read_lines": 0,
             "digest": "crash:%s:%s" % (why, sig or code),
         }
 
